@@ -59,6 +59,12 @@ def replacement_histories():
     H["branch-replacements"] = [("add", 0, ["x==K0"]), ("branch", 0, 1), ("add", 1, ["y==K1"]), ("eval", 1, "x+y", 2, []), ("eval", 0, "x+y", 9, []), ("add", 0, ["y<=K2"]), ("eval", 1, "y", 9, [])]
     H["or-of-eqs"] = [("add", 0, ["x==K0|x==K1"]), ("eval", 0, "x", 9, []), ("add", 0, ["x!=K0"]), ("eval", 0, "x", 9, []), ("min", 0, "x", True, [])]
     H["signed-bounds"] = [("add", 0, ["x<=sK1"]), ("add", 0, ["x>=sK2"]), ("eval", 0, "x", 9, []), ("max", 0, "x", False, []), ("min", 0, "x", True, [])]
+    # solvers derived through a blank copy (merge / split / combine) start without the replacements their source had learned
+    H["merge-two-eqs"] = [("branch", 0, 1), ("add", 0, ["x==K0"]), ("add", 1, ["x==K1"]), ("eval", 0, "x", 2, []), ("merge", 0, [1], ["b", "!b"], 2), ("eval", 2, "x", 9, []), ("sat", 2, ["x==K1"])]
+    H["merge-bool-replacement"] = [("branch", 0, 1), ("add", 0, ["!b"]), ("add", 1, ["b"]), ("sat", 0, []), ("merge", 0, [1], ["x==K0", "x==K1"], 2), ("sat", 2, ["b"]), ("sat", 2, ["!b"])]
+    H["split-defining-constraint"] = [("add", 0, ["x+1==K0", "y<=K2"]), ("eval", 0, "x", 2, []), ("split", 0, 10), ("eval", 10, "x", 9, []), ("eval", 11, "x", 9, [])]
+    H["combine-defining-constraint"] = [("branch", 0, 1), ("add", 0, ["x+1==K0"]), ("add", 1, ["y==K1"]), ("eval", 0, "x", 2, []), ("combine", 0, [1], 2), ("eval", 2, "x", 9, []), ("eval", 2, "y", 9, [])]
+    H["what-if-extra-then-plain"] = [("add", 0, [A]), ("eval", 0, "x", 3, ["x==K1"]), ("eval", 0, "x", 9, []), ("max", 0, "x+1", False, []), ("branch", 0, 1), ("add", 1, ["x!=K1"]), ("sat", 1, [])]
     return H
 
 
